@@ -25,15 +25,16 @@ import (
 func init() {
 	kit.Register(&kit.Spec{
 		ID:     "C19",
-		Rule:   "sequence = (treap kind, key space 4|64|5000, seeded list of put/delete/overwrite/get/has/len/size/foreach/iterator-walk ops); values nil, empty and 1..40 bytes; iterators unranged and ranged (start only, limit only, both, empty ranges), walks of First/Last/Next/Prev/Seek, on mutable treaps interleaved with mutation+ForceReseek. distinct = hash of the op list; non-trivial = the sequence performed >= 10 mutations and >= 10 compared reads on a treap holding >= 2 keys",
+		Rule:   "sequence = (treap kind, key space 4|64|5000 (plus one 150k-260k-key delete-heavy history on shard 0), seeded list of put/delete/overwrite/get/has/len/size/foreach/iterator-walk ops); values nil, empty and 1..40 bytes; iterators unranged and ranged (start only, limit only, both, empty ranges), walks of First/Last/Next/Prev/Seek, on mutable treaps interleaved with mutation+ForceReseek. distinct = hash of the op list; non-trivial = the sequence performed >= 10 mutations and >= 10 compared reads on a treap holding >= 2 keys",
 		Shards: func(tier string) int { return 8 },
 		Run:    runC19,
 		Require: []string{"mutable_sequences", "immutable_sequences", "puts", "deletes", "overwrites", "gets", "iter_steps",
 			"iter_ranged_steps", "iter_reseek_steps", "versions_retained", "version_full_verifications", "old_version_checked_after_later_updates",
-			"size_checks", "nil_value_puts", "empty_value_puts", "keyspace_4", "keyspace_64", "keyspace_5000", "foreach_early_stop"},
+			"size_checks", "nil_value_puts", "empty_value_puts", "keyspace_4", "keyspace_64", "keyspace_5000", "foreach_early_stop",
+			"deep_histories", "deep_phase_checks", "deep_samples_checked", "deep_retained_version_checked"},
 		Assumptions: []string{
 			"treap node priorities come from the global math/rand source; the check re-seeds it per sequence so runs are reproducible, the answers must not depend on it",
-			"parent-stack overflow beyond depth 128 is not reachable with random priorities and is not exercised",
+			"the deep family (150k-260k keys, 90% deleted in random order) is what drives root-to-node paths beyond the static parent-stack depth of 128; the depth reached is not observable from outside the package, so it is a property of the history shape (measured at 200-350 by a seeded-change author), not a verdict",
 			"iterator semantics taken from the package comments and its own tests: range is [start,limit); Seek(k) goes to the first key >= k of the treap and is exhausted if that key is outside the range (treapiter_test.go pins this for k below the start); an exhausted iterator stays exhausted until First/Last/Seek; after a mutation ForceReseek must be called and Key/Value are only compared again after the next move",
 		},
 	})
@@ -536,6 +537,9 @@ func (s *c19seq) iterWalk(t anyTreap, v oview, universe []string, steps int, mut
 }
 
 func runC19(c *kit.Ctx) {
+	if c.Shard == 0 || (!c.Quick() && c.Shard < 4) {
+		runC19Deep(c)
+	}
 	r := c.Rand("c19")
 	nseq := c.N(260, 7500) // per shard
 	for q := 0; q < nseq; q++ {
